@@ -189,6 +189,9 @@ def run(repo, rep, tier):
                         "equals Vincent & Soille's reference transition on every combination of label classes (finite case analysis)")
     ncomb = cnative.immersion_decisions(repo, rep, "R-C04-8")
     rep.floor("R-C04-8", "label-class combinations evaluated", ncomb, 150)
+    rep.rule("R-C04-13", "a bin is queued at most once per visit: a fifo_add of the visited bin inside the loop over its neighbours leaves that loop at once (the FIFO "
+                         "is a ring of nspec slots)")
+    rep.floor("R-C04-13", "fifo_add calls inside neighbour loops", cnative.queue_once_per_visit(repo, rep, "R-C04-13"), 2)
     ndb = cnative.double_buffer(repo, rep, "R-C04-7")
     rep.floor("R-C04-7", "neighbour-label reassignment stores", ndb, 1)
     cf = cnative.core(repo)
